@@ -237,8 +237,15 @@ def coq_bool(b):
 # ---------------------------------------------------------------------------------------
 # known findings
 
+_KNOWN_CACHE = None
+
+
 def load_known():
-    """committed known findings: known_findings.json plus one file per finding in known_findings.d/"""
+    """committed known findings: known_findings.json plus one file per finding in known_findings.d/
+    (read once per process; a file that cannot be parsed is retried, then reported loudly)"""
+    global _KNOWN_CACHE
+    if _KNOWN_CACHE is not None:
+        return _KNOWN_CACHE
     out = []
     p = os.path.join(VERIF, "known_findings.json")
     if os.path.exists(p):
@@ -247,8 +254,17 @@ def load_known():
     if os.path.isdir(d):
         for f in sorted(os.listdir(d)):
             if f.endswith(".json"):
-                x = json.load(open(os.path.join(d, f)))
+                x = None
+                for attempt in range(5):
+                    try:
+                        x = json.load(open(os.path.join(d, f)))
+                        break
+                    except ValueError:
+                        time.sleep(0.3)
+                if x is None:
+                    raise RuntimeError("known_findings.d/%s is not valid JSON" % f)
                 out += x if isinstance(x, list) else [x]
+    _KNOWN_CACHE = out
     return out
 
 
@@ -400,7 +416,7 @@ def run_shards(ctx, shards, timeout=900):
 
 def parse_coq_list_of_nat(out):
     """parse '= [1; 2; 3]' style output of Eval vm_compute (possibly wrapped over lines)."""
-    m = re.search(r"=\s*\[(.*?)\]\s*:\s*list", out, re.S)
+    m = re.search(r"=\s*\[(?:::)?(.*?)\]\s*:\s*(?:list|seq)", out, re.S)
     if not m:
         return None
     body = m.group(1).strip()
